@@ -137,3 +137,8 @@ impl core::convert::TryFrom<u16> for BodyFormat {
         })
     }
 }
+
+#[cfg(kani)]
+mod verif_kani {
+    include!(concat!(env!("REPE_VERIF_KANI"), "/constants.rs"));
+}
